@@ -106,6 +106,132 @@ fn check_reference(c: &PairCase, info: &mut Info) -> Result<(), String> {
     Ok(())
 }
 
+// ---- operands computed by the crate's own arithmetic ------------------------------------------------------
+// (an identity reached by P + (-P) or [r]P carries left-over coordinates; it must still pair to 1)
+
+#[derive(Clone, Debug, Serialize, Deserialize, PartialEq, Eq, Hash)]
+pub enum How {
+    /// [k]B by mul_assign on the projective value
+    MulAssign(ScalarR),
+    /// [k]B by CurveAffine::mul
+    AffMul(ScalarR),
+    /// B + (-B) by add_assign
+    AddNeg,
+    /// B - B by sub_assign_mixed
+    SubMixedSelf,
+    /// ([k]B) doubled, then the original added back twice negated: 2[k]B - [k]B - [k]B
+    DoubleMinusTwice(ScalarR),
+    /// the value as built from coordinates
+    Plain,
+}
+
+#[derive(Clone, Debug, Serialize, Deserialize, PartialEq, Eq, Hash)]
+pub struct ComputedCase {
+    pub i: u8,
+    pub how_p: How,
+    pub j: u8,
+    pub how_q: How,
+    /// hand the projective values to Engine::pairing (true) or convert with into_affine first (false)
+    pub projective_args: bool,
+}
+
+fn how_strategy() -> BoxedStrategy<How> {
+    let k = || prop_oneof![3 => scalar_strategy(), 2 => (0u8..3).prop_map(ScalarR::NearR), 1 => Just(ScalarR::Zero)];
+    prop_oneof![
+        3 => k().prop_map(How::MulAssign),
+        3 => k().prop_map(How::AffMul),
+        2 => Just(How::AddNeg),
+        2 => Just(How::SubMixedSelf),
+        1 => k().prop_map(How::DoubleMinusTwice),
+        3 => Just(How::Plain),
+    ]
+    .boxed()
+}
+
+fn computed_strategy() -> BoxedStrategy<ComputedCase> {
+    (0u8..POOL_SUB as u8, how_strategy(), 0u8..POOL_SUB as u8, how_strategy(), any::<bool>()).prop_map(|(i, how_p, j, how_q, projective_args)| ComputedCase { i, how_p, j, how_q, projective_args }).boxed()
+}
+
+/// (crate value, discrete log w.r.t. the generator)
+fn compute<G: HasPool>(idx: u8, how: &How) -> Result<(G::Proj, Z), String> {
+    let (a0, bm) = {
+        let e = &G::pool().sub[idx as usize % POOL_SUB];
+        (e.0.clone(), e.1.clone())
+    };
+    let b = proj_c::<G>(&bm);
+    let ba = aff_c::<G>(&bm);
+    let rep = |k: &Z| pairing_plus::bls12_381::FrRepr(scalar_limbs(k));
+    Ok(match how {
+        How::Plain => (b, a0),
+        How::MulAssign(k) => {
+            let kz = k.build();
+            let mut t = b;
+            cr("mul_assign", || G::op_mul_assign(&mut t, rep(&kz)))?;
+            (t, (a0 * kz) % r())
+        }
+        How::AffMul(k) => {
+            let kz = k.build();
+            (cr("mul", || G::op_aff_mul(&ba, rep(&kz)))?, (a0 * kz) % r())
+        }
+        How::AddNeg => {
+            let mut n = b;
+            cr("negate", || G::op_neg(&mut n))?;
+            let mut t = b;
+            cr("add_assign", || G::op_add(&mut t, &n))?;
+            (t, Z::zero())
+        }
+        How::SubMixedSelf => {
+            let mut t = b;
+            cr("sub_assign_mixed", || G::op_sub_mixed(&mut t, &ba))?;
+            (t, Z::zero())
+        }
+        How::DoubleMinusTwice(k) => {
+            let kz = k.build();
+            let mut t = b;
+            cr("mul_assign", || G::op_mul_assign(&mut t, rep(&kz)))?;
+            let orig = t;
+            cr("double", || G::op_double(&mut t))?;
+            cr("sub", || G::op_sub(&mut t, &orig))?;
+            cr("sub", || G::op_sub(&mut t, &orig))?;
+            (t, Z::zero())
+        }
+    })
+}
+
+fn check_computed(c: &ComputedCase, info: &mut Info) -> Result<(), String> {
+    let (p, a) = compute::<G1m>(c.i, &c.how_p)?;
+    let (q, b) = compute::<G2m>(c.j, &c.how_q)?;
+    let p_id = a.is_zero();
+    let q_id = b.is_zero();
+    if p_id && !matches!(c.how_p, How::Plain) {
+        info.class("G1-identity-reached-by-arithmetic");
+    }
+    if q_id && !matches!(c.how_q, How::Plain) {
+        info.class("G2-identity-reached-by-arithmetic");
+    }
+    info.nt_if(p_id || q_id || !matches!((&c.how_p, &c.how_q), (How::Plain, How::Plain)));
+    let e = if c.projective_args {
+        fq12_m(&cr("Engine::pairing(projective, projective)", || Bls12::pairing(p, q))?)
+    } else {
+        let (pa, qa) = (cr("into_affine", || G1m::op_to_affine(&p))?, cr("into_affine", || G2m::op_to_affine(&q))?);
+        fq12_m(&cr("pairing_with", || pa.pairing_with(&qa))?)
+    };
+    let want = published_e_g1_g2().pow(&((&a * &b) % r()));
+    if e != want {
+        return Err(format!(
+            "pairing of operands computed by the crate ({:?} on pool point {}, {:?} on pool point {}): result differs from e(g1,g2)^(ab) with a = 0x{:x}, b = 0x{:x}{}",
+            c.how_p,
+            c.i,
+            c.how_q,
+            c.j,
+            a,
+            b,
+            if p_id || q_id { " (an operand is the identity: the pairing must be exactly 1)" } else { "" }
+        ));
+    }
+    Ok(())
+}
+
 // ---- call histories: the value must not depend on earlier calls --------------------------------------
 
 /// a point drawn from a tiny set so that related points (same point, its negation = same x /
@@ -202,6 +328,7 @@ pub fn def() -> PropDef {
             Box::new(EnumSub { name: "published-value", rule: "e(g1,g2) equals the published value (enumerated: evaluated twice)", run: run_kat, replay: replay_kat, exhaustive: true }),
             Box::new(Sub { name: "textbook-reference", rule: "crate pairing == textbook ate pairing (model), e^r = 1", quick: 120, thorough: 3000, strategy: || boxed(pair_strategy()), check: check_reference }),
             Box::new(Sub { name: "call-histories", rule: "sequences of 2..6 pairing calls on one thread over a tiny point set closed under negation (same x, opposite y) and the beta-twist (same y, other x), each compared with the textbook pairing: the value must not depend on earlier calls", quick: 50, thorough: 1500, strategy: || boxed(hist_strategy()), check: check_history }),
+            Box::new(Sub { name: "computed-operands", rule: "operands produced by the crate's own arithmetic on pool points with known discrete logs ([k]B by mul_assign / CurveAffine::mul with k incl. 0, r-1, r, r+1; B + (-B); B - B mixed; 2[k]B - [k]B - [k]B), passed as projective values or through into_affine: e == published^(ab), in particular exactly 1 when an operand is an identity reached by arithmetic", quick: 600, thorough: 20_000, strategy: || boxed(computed_strategy()), check: check_computed }),
             Box::new(Sub { name: "bilinearity", rule: "e([a]g1,[b]g2) == published^(ab); non-degeneracy; call direction", quick: 1_500, thorough: 40_000, strategy: || boxed(pair_strategy()), check: check_relations }),
         ],
         assumptions: COMMON_ASSUMPTIONS.to_vec(),
